@@ -17,7 +17,8 @@ RULE = ('cases = sequence of add_scu/add_scp calls (1..4 calls, SOP-class lists 
         'configured maximum length x reply pattern of the scripted acceptor (per context: result '
         '0..4 and, if accepted, which proposed syntax) - every pattern for <= 3 contexts in '
         'thorough, seeded otherwise; non-trivial = >= 2 contexts or a partial acceptance; '
-        'distinct = distinct (configuration, reply pattern)')
+        'distinct = distinct (configuration, reply pattern)'
+        '; a second association after reconfiguration answered the other way round, with every class looked up again; unproposable configurations requested twice')
 ASSUMPTIONS = ['a service is expected from get_scu only for classes configured with add_scu',
                'a configuration that cannot be proposed within ids 1..255 must fail with a '
                'library error before anything is written to the connection']
